@@ -599,6 +599,11 @@ def monOp0 (m : Mon) (op : String) (args : List String) (impl : List String) (tr
           (match fwd with
            | some f =>
              if ret0 && tries > 0 && replyAcceptable H sc.secret (authOf f.pkt) sc.reqMA pkt then "bad C04:authentic-reply-reset-the-connection"
+             -- a packet for a transmitted request that fails authentication (Response Authenticator or a Message-Authenticator) is
+             -- REFUSED - the return value that makes the stream readers reset the connection
+             else if !ret0 && tries > 0 && wellFormedLoose pkt && [2, 3, 5, 11].contains (codeOf pkt).toNat &&
+                     (!respAuthValid H pkt (authOf f.pkt) sc.secret || expectMacInvalid H pkt (some sc.secret) (some (authOf f.pkt))) then
+               "bad C04:packet-failing-authentication-was-not-refused"
              else "ok"
            | none => "ok")
         | [j] =>
@@ -647,7 +652,9 @@ def monOp0 (m : Mon) (op : String) (args : List String) (impl : List String) (tr
                  (match fwd with
                   | some f =>
                     if ret0 && tries > 0 && replyAcceptable H sc.secret (authOf f.pkt) sc.reqMA pkt then "bad C04:authentic-reply-reset-the-connection"
-                    else if !ret0 && wellFormedLoose pkt && [2, 3, 5, 11].contains (codeOf pkt).toNat && !respAuthValid H pkt (authOf f.pkt) sc.secret then
+                    else if !ret0 && wellFormedLoose pkt && [2, 3, 5, 11].contains (codeOf pkt).toNat &&
+                            (!respAuthValid H pkt (authOf f.pkt) sc.secret ||
+                             (tries > 0 && expectMacInvalid H pkt (some sc.secret) (some (authOf f.pkt)))) then
                       "bad C04:packet-failing-authentication-did-not-reset-the-stream-connection"
                     else if ret0 && !resetFollows then "bad C04:refused-packet-but-the-stream-connection-was-not-re-established"
                     else "ok"
@@ -827,6 +834,7 @@ def monOp0 (m : Mon) (op : String) (args : List String) (impl : List String) (tr
   | "radput", _ => (m, "ok")
   | "reset", [name] => (resync { m with tx := m.tx.filter (·.1 ≠ name), resetPending := name :: m.resetPending.filter (· ≠ name) } out, "ok")   -- a reset lets everything be sent again
   | "srvstate", _ => (resync m out, "ok")
+  | "srvnext", _ => (resync m out, "ok")
   | "rmserver", [name] =>
     -- C17: the server is gone with everything it held; what was outstanding there will never be answered
     let still := (sections out).any fun sec => sec.startsWith ("S:" ++ name ++ " ")
@@ -904,7 +912,7 @@ def monOp1 (m : Mon) (op : String) (args : List String) (impl : List String) (tr
     let (m, v') := monOp0 m op args impl trToks
     (m, if v ≠ "ok" then v else v')
 
-def refOps : List String := ["cfg", "client", "rq", "reply", "writer", "tick", "reset", "srvstate", "pop", "rmclient", "udplisten", "udpsend", "idle", "wrstart", "wrrun", "tcpconn", "rmserver", "srvconn"]
+def refOps : List String := ["cfg", "client", "rq", "reply", "writer", "tick", "reset", "srvstate", "pop", "rmclient", "udplisten", "udpsend", "idle", "wrstart", "wrrun", "tcpconn", "rmserver", "srvconn", "srvnext"]
 
 def monOp2 (m : Mon) (op : String) (args : List String) (impl : List String) (trToks : List String := []) : Mon × String :=
   let (m', v) := monOp1 m op args impl trToks
@@ -934,7 +942,13 @@ def monOp (m : Mon) (op : String) (args : List String) (impl : List String) (trT
             let stream := Stream.dataOf evs
             let frames := (Stream.framesOut (stream.length + 1) stream).filterMap fun | .pkt b => some b | _ => none
             let got := impl'.filterMap fun t => if t.startsWith "pkt:" then ofHex (t.drop 4).toString else none
-            (m, if got == frames.take got.length then "ok" else "bad C16:octets-from-inside-a-message-processed-as-a-packet-after-an-allocation-failed")
+            -- a reader that could not take a message in gives the connection up: it does not report a mere silence and read on
+            let stalls := (evs.filter fun e => e == Stream.Ev.stall).length
+            let timeouts := (impl'.filter (· = "timeout")).length
+            (m, if got != frames.take got.length then "bad C16:octets-from-inside-a-message-processed-as-a-packet-after-an-allocation-failed"
+                else if evs.getLast? == some Stream.Ev.eof && timeouts > stalls then
+                  "bad C16:reader-reported-a-silence-and-read-on-after-it-failed-to-take-a-message-in"
+                else "ok")
           | none => (m, "bad-op"))
        | _ => (m, "bad-op"))
     else
